@@ -221,7 +221,63 @@ def run(ctx):
                 r.ok("Args.%s reads the declared default" % f.name)
             else:
                 r.fail(f, f.node, "no declared default", "Args.%s never reads the declared default" % f.name)
+    # ---------------------------------------------------------------- R6
+    r = ctx.rule("C01-R6", "SENTINEL", "values drawn with next(it, None) in the parser are tested against that "
+                 "sentinel, not for truthiness (an empty-string positional is a value)", reference=2)
+    sentinel_loops(ctx, r, [f for f in p.all_functions() if f.module.name.startswith("clikit.args")])
+    if r.n == 0:
+        r.vacuous_ok = True
+
+    # ---------------------------------------------------------------- R7
+    r = ctx.rule("C01-R7", "SENTINEL", "presence in the value maps is decided by membership, never by comparing the "
+                 "stored value with None (None is a value: nullable types convert 'null' to it)", reference=3)
+    nullable_fact = any(isinstance(ret, ast.Return) and ret.value is None for fn in ctx.p.modules["clikit.utils.string"].functions.values() if fn.name.startswith("parse_") for ret in q.returns(fn))
+    r.note("fact: utils.string.parse_* %s return None for nullable values" % ("can" if nullable_fact else "never"))
+    n_reads = 0
+    for name, m in sorted(args.methods.items()):
+        for c in q.calls(m):
+            if isinstance(c.func, ast.Attribute) and c.func.attr in ("get", "pop", "setdefault") and is_self_attr(c.func.value) and c.func.value.attr in (OPT_MAP, ARG_MAP):
+                n_reads += 1
+                if nullable_fact and c.func.attr == "get":
+                    r.fail(m, c, norm(c), "Args.%s reads the value map with .get(): a stored None (a nullable option given as 'null') cannot be told from 'not given' "
+                           "and falls through to the default" % name)
+        for sub in q.subscripts_on_self_attr(m, OPT_MAP) + q.subscripts_on_self_attr(m, ARG_MAP):
+            if isinstance(sub.ctx, ast.Load):
+                n_reads += 1
+                cfg = ctx.cfg(m)
+                key = norm(sub.slice)
+                attr = sub.value.attr
+                g = None
+                for cn in cfg.nodes_of(sub):
+                    g = guarded_by(cfg, cn, lambda e: isinstance(e, ast.Compare) and isinstance(e.ops[0], ast.In) and is_self_attr(e.comparators[0], attr) and norm(e.left) == key, polarity=True)
+                if g is not None:
+                    r.ok("%s: %s under '%s in self.%s'" % (m.short, norm(sub), key, attr))
+                else:
+                    r.fail(m, sub, norm(sub) + " unguarded", "Args.%s reads %s without the membership test on the same key" % (name, norm(sub)))
+    ctx.require(n_reads >= 2, "no reads of the value maps found in Args")
     return ctx.results
+
+
+def sentinel_loops(ctx, r, funcs):
+    """SENTINEL rule shared with C03: a loop whose sole condition is the truthiness of a value drawn with next(it, None)."""
+    for fi in funcs:
+        drawn = set()
+        for n in walk_no_nested(fi.node):
+            if isinstance(n, ast.Assign) and isinstance(n.value, ast.Call) and isinstance(n.value.func, ast.Name) and n.value.func.id == "next" \
+                    and len(n.value.args) == 2 and isinstance(n.value.args[1], ast.Constant) and n.value.args[1].value is None:
+                for t in n.targets:
+                    if isinstance(t, ast.Name):
+                        drawn.add(t.id)
+        for n in walk_no_nested(fi.node):
+            if isinstance(n, ast.While):
+                t = n.test
+                if isinstance(t, ast.Name) and t.id in drawn:
+                    r.fail(fi, n, "while " + t.id, "the loop ends on a falsy value: an empty-string token is taken for the end of the values")
+                elif isinstance(t, ast.Compare) and isinstance(t.left, ast.Name) and t.left.id in drawn and isinstance(t.ops[0], ast.IsNot):
+                    r.ok("%s: while %s" % (fi.short, norm(t)))
+                elif isinstance(t, ast.BoolOp) and any(isinstance(v, ast.Name) and v.id in drawn for v in t.values):
+                    # conjoined with a test that rejects the empty string anyway (command_name.match(arg))
+                    r.ok("%s: while %s [truthiness conjoined with a match test]" % (fi.short, norm(t)[:50]))
 
 
 def _is_parse_call(e):
